@@ -40,53 +40,64 @@ def norm_fn(fn):
     return ".".join(parts[:2]) if parts else fn
 
 
+SKIP_FRAME = re.compile(r"^\s+(runtime\.|sync/atomic\.|sync\.|internal/)")
+
+
 def parse_reports(text, repo):
-    """-> list of reports: {"sites": [site of access 1, site of access 2], "text": head of the report}"""
+    """-> list of reports {"sites": [top site per access, None when the accessing frame is not arr-ai/arrai code],
+    "stacks": [all arr-ai/arrai sites of each access's stack], "text": head of the report}"""
     reports = []
     for block in text.split("WARNING: DATA RACE")[1:]:
         lines = block.splitlines()
-        sites = []
+        sites, stacks = [], []
         i = 0
-        while i < len(lines):
+        while i < len(lines) and len(sites) < 2:
             if ACCESS.match(lines[i]):
-                site = None
+                top, seen_top, allsites = None, False, []
                 j = i + 1
                 while j < len(lines) and lines[j].strip():
-                    m = FRAME_FN.match(lines[j])
-                    if m and site is None:
-                        f = lines[j + 1].strip().split(" ")[0] if j + 1 < len(lines) else ""
-                        f = f.rsplit(":", 1)[0]
-                        for pre in (repo.rstrip("/") + "/", "/repo/"):
-                            if f.startswith(pre):
-                                f = f[len(pre):]
-                        site = "%s:%s" % (f, norm_fn(m.group(2)))
+                    if lines[j].startswith("  ") and not lines[j].startswith("      "):   # a function line
+                        m = FRAME_FN.match(lines[j])
+                        site = None
+                        if m:
+                            f = lines[j + 1].strip().split(" ")[0] if j + 1 < len(lines) else ""
+                            f = f.rsplit(":", 1)[0]
+                            for pre in (repo.rstrip("/") + "/", "/repo/"):
+                                if f.startswith(pre):
+                                    f = f[len(pre):]
+                            site = "%s:%s" % (f, norm_fn(m.group(2)))
+                            allsites.append(site)
+                        if not seen_top and not SKIP_FRAME.match(lines[j]):
+                            seen_top = True
+                            top = site
                     j += 1
-                sites.append(site)
+                sites.append(top)
+                stacks.append(allsites)
                 i = j
             else:
                 i += 1
-            if len(sites) == 2:
-                break
-        reports.append({"sites": sites, "text": "\n".join(lines[:28])})
+        reports.append({"sites": sites, "stacks": stacks, "text": "\n".join(lines[:28])})
     return reports
 
 
 # ---------------------------------------------------------------- scenarios
 
 def rel_src(rows, attrs, rng):
-    """a relation with `rows` rows built through => (so headings come from TupleOrderedNames)"""
+    """a relation literal with `rows` rows (set of tuples: headings come from TupleOrderedNames)"""
     mods = [rng.choice([2, 3, 5, 7]) for _ in attrs]
-    body = ", ".join("%s: .@ %% %d" % (a, m) if i else "%s: .@" % a for i, (a, m) in enumerate(zip(attrs, mods)))
-    return "(//seq.repeat(%d, [0])) => (%s)" % (rows, body)
+    return "{" + ", ".join("(" + ", ".join("%s: %d" % (a, i if k == 0 else i % m) for k, (a, m) in enumerate(zip(attrs, mods))) + ")"
+                           for i in range(rows)) + "}"
 
 
 def numset_src(n):
-    return "(//seq.repeat(%d, [0])) => .@" % n
+    if n > 5000:
+        return "(//seq.repeat(%d, [0])) => .@" % n
+    return "{" + ", ".join(str(i) for i in range(n)) + "}"
 
 
 def gen_scenarios(rng, tier):
     thorough = tier == "thorough"
-    R = 3 if not thorough else 8          # rounds per eval case
+    R = 2 if not thorough else 6          # rounds per eval case
     N = 8
     sc = []
 
@@ -102,25 +113,25 @@ def gen_scenarios(rng, tier):
 
     # S2 tuples and union sets of tuples through compiled expressions (bucket cache nested in names cache)
     cases = []
-    for _ in range(2 if not thorough else 6):
+    for _ in range(1 if not thorough else 4):
         a, b, c = rng.sample(["a", "b", "c", "d", "e"], 3)
         shared = "{(%s:1,%s:2), (%s:3), (%s:1,%s:[1,2]), (%s:(%s:1)), 7, {1,2}}" % (a, b, c, a, c, b, a)
         exprs = ["x | {(%s:1,%s:3)}" % (a, b), "x & {(%s:3)}" % c, "x count", "x = (x | x)", "{(%s:3)} <: x" % c,
                  "x where (. = 7)", "x => cond . {(%s:v, ...): v, _: 0}" % a, "x -- {7}"]
         rng.shuffle(exprs)
-        cases.append({"kind": "eval", "shared": shared, "exprs": exprs, "n": N, "rounds": R * 3})
+        cases.append({"kind": "eval", "shared": shared, "exprs": exprs, "n": N, "rounds": R})
         shared = "(%s:1, %s:2, %s:(%s:3, %s:{1,2}))" % (a, b, c, a, b)
         exprs = ["x.%s" % a, "x.|%s,%s|" % (a, b), "x +> (zz:1)", "{x} | {(%s:1)}" % a, "x = (%s:1, %s:2, %s:(%s:3, %s:{1,2}))" % (a, b, c, a, b),
                  "x.%s.%s" % (c, a), "{x, x +> (%s:5)} count" % a, "x.nope", "x <&> 1", "x +> ", "x ->"]   # last four: malformed / failing
         rng.shuffle(exprs)
-        cases.append({"kind": "eval", "shared": shared, "exprs": exprs, "n": N, "rounds": R * 3})
+        cases.append({"kind": "eval", "shared": shared, "exprs": exprs, "n": N, "rounds": R})
     sc.append({"name": "tuple-eval", "proto": "PTupleBucket", "hits": False, "env": {"FROZEN_CONCURRENCY": "3"}, "cases": cases})
 
     # S3 positionalRelation index cache: joins with different projector keys on one shared relation.
     # Headings of 2 or 4 attributes only: with 3 (spare capacity in the heading slice) a join that extends the
     # heading is inside the known-defective region of q_join_attrs_append_alias (its own scenario below).
     cases = []
-    for _ in range(3 if not thorough else 8):
+    for _ in range(2 if not thorough else 6):
         attrs = rng.choice([["a", "b"], ["a", "b", "c", "d"], ["k", "v"], ["p", "q", "r", "s"]])
         rows = rng.choice([3, 9, 12, 40])
         a, b = attrs[0], attrs[1]
@@ -130,11 +141,13 @@ def gen_scenarios(rng, tier):
                  "x --- {(%s:1)}" % a, "x where .%s = 1" % a, "x => .%s" % b, "x count", "x nest |%s|g" % last,
                  "x <&> {(%s:1)} <&> {(%s:1)}" % (a, b), "x <&> x", "x <&> {}", "x <&> {1}"]
         rng.shuffle(exprs)
+        if not thorough:
+            exprs = exprs[:10]
         cases.append({"kind": "eval", "shared": rel_src(rows, attrs, rng), "exprs": exprs, "n": rng.choice([4, 8, 16]), "rounds": R})
     sc.append({"name": "relpos-index", "proto": "PRelposIndex", "hits": False, "env": {"FROZEN_CONCURRENCY": "3"}, "cases": cases})
 
     # S4 the captured err of Where: failing predicates on sets big enough for frozen's fan-out (FROZEN_CONCURRENCY=3: >= 32)
-    size = rng.choice([200, 300, 400])
+    size = rng.choice([64, 100, 150]) if not thorough else rng.choice([200, 300, 400])
     cases = [{"kind": "eval", "shared": numset_src(size), "exprs": ["x where .a = 1", "x where (cond {. % 3 = 0: .a, _: 1}) = 1"], "n": 2, "rounds": R}]
     sc.append({"name": "where-err-generic", "proto": "PWhereErr", "hits": True, "env": {"FROZEN_CONCURRENCY": "3"}, "cases": cases})
     cases = [{"kind": "eval", "shared": rel_src(size, ["a", "b"], rng), "exprs": ["x where .zz = 1"], "n": 2, "rounds": R}]
@@ -142,8 +155,8 @@ def gen_scenarios(rng, tier):
 
     # S5 parallel callbacks that do not fail (sampled only: the theorem about err needs a failing predicate)
     cases = [{"kind": "eval", "shared": numset_src(size), "exprs": ["x where . % 2 = 0", "x => . + 1", "x count", "x | {-1}", "x & {1,2,3}",
-                                                                   "x where . < 0", "(x => (a: ., b: . % 4)) nest |a|g count"], "n": 4, "rounds": 2},
-             {"kind": "eval", "shared": rel_src(size, ["a", "b"], rng), "exprs": ["x where .b = 1", "x => .a", "x <&> {(b:1)}", "x count"], "n": 4, "rounds": 2}]
+                                                                   "x where . < 0", "(x => (a: ., b: . % 4)) nest |a|g count"], "n": 4, "rounds": 1 if not thorough else 3},
+             {"kind": "eval", "shared": rel_src(size, ["a", "b"], rng), "exprs": ["x where .b = 1", "x => .a", "x <&> {(b:1)}", "x count"], "n": 4, "rounds": 1 if not thorough else 3}]
     if thorough:
         big = 140000   # above frozen's default fan-out threshold (131072)
         cases.append({"kind": "eval", "shared": numset_src(big), "exprs": ["x where . % 2 = 0", "x count"], "n": 2, "rounds": 1})
@@ -211,9 +224,9 @@ def memo_build():
 
 
 def coq_classify(run, rows):
-    body = ["From Arrai Require Import Sys.Conc Check.C11Check.", "Definition cases : list case11 := ["]
+    body = ["From Coq Require Import List ZArith.", "Import ListNotations.", "From Arrai Require Import Sys.Conc Check.C11Check.", "Definition cases : list case11 := ["]
     body.append(";\n".join(
-        "  {| c_id := %d; c_proto := %s; c_q := {| q_where_err_capture_race := %s; q_importcache_error_no_broadcast := %s; q_join_attrs_append_alias := %s |}; "
+        "  {| c_id := %d%%Z; c_proto := %s; c_q := {| q_where_err_capture_race := %s; q_importcache_error_no_broadcast := %s; q_join_attrs_append_alias := %s |}; "
         "c_racy := %s; c_serial := %s; c_hang := %s |}" % (
             r["id"], r["proto"], cbool(r["q"]["q_where_err_capture_race"] and r["hits"]), cbool(r["q"]["q_importcache_error_no_broadcast"] and r["hits"]),
             cbool(r["q"]["q_join_attrs_append_alias"] and r["hits"]), cbool(r["racy"]), cbool(r["serial"]), cbool(r["hang"])) for r in rows))
@@ -247,11 +260,12 @@ def main(tier, seed, replay=None):
                 for s in more:
                     s["name"] += "-s%d" % extra
                 scenarios += [s for s in more if not s["name"].startswith("std-lazies")]
-    with concurrent.futures.ThreadPoolExecutor(max_workers=6) as ex:
+    with concurrent.futures.ThreadPoolExecutor(max_workers=12) as ex:
         results = list(ex.map(lambda p: run_scenario(vrace, p[1], p[0]), enumerate(scenarios)))
 
     rows, evals, dist, seen = [], 0, 0, set()
     site_hist, kind_hist = {}, {}
+    outside = [0]
     for idx, (s, r) in enumerate(zip(scenarios, results)):
         serial, hang, crashed = True, False, False
         for c in s["cases"]:
@@ -283,16 +297,22 @@ def main(tier, seed, replay=None):
         for rep in r["reports"]:
             sites = [x for x in rep["sites"] if x]
             if not sites:
-                continue       # a race entirely outside arr-ai/arrai code (harness/runtime): not this property
+                outside[0] += 1
+                continue       # neither conflicting access is made by arr-ai/arrai code (harness/runtime): not this property
             for x in set(sites):
                 site_hist[x] = site_hist.get(x, 0) + 1
-            quirk_sites = [x for x in sites if x in QUIRK_SITES]
-            rec = dict(base, race_sites=sites, report=rep["text"],
+            # attributed to a quirk iff every arr-ai access happens in (or below) one of that quirk's call sites
+            attributed = None
+            for qs, (proto, qn) in QUIRK_SITES.items():
+                if all(top is None or any(QUIRK_SITES.get(y, (None, None))[1] == qn for y in st) for top, st in zip(rep["sites"], rep["stacks"])):
+                    attributed = qn
+            rec = dict(base, race_sites=rep["sites"], report=rep["text"],
                        oracle="the race detector reports unsynchronised conflicting accesses in arr-ai/arrai code")
-            if quirk_sites and len(quirk_sites) == len(sites):
-                if s["proto"] == QUIRK_SITES[quirk_sites[0]][0]:
+            if attributed:
+                hit = sorted({y for st in rep["stacks"] for y in st if QUIRK_SITES.get(y, (None, None))[1] == attributed})
+                if s["proto"] == QUIRK_SITES[hit[0]][0]:
                     own_racy = True
-                for x in set(quirk_sites):
+                for x in hit:
                     run.classify_failure(x, rec)           # open -> KNOWN-FINDING, otherwise VIOLATION
             else:
                 run.classify_failure(None, rec)            # a race at any other site
@@ -347,6 +367,7 @@ def main(tier, seed, replay=None):
         "scenario_histogram": {s["name"]: len(s["cases"]) for s in scenarios},
         "case_kind_histogram": kind_hist,
         "race_site_histogram": site_hist,
+        "race_reports_outside_arrai": outside[0],
         "scenario_wall_s": {s["name"]: r["wall"] for s, r in zip(scenarios, results)},
         "model_codes": {scenarios[k]["name"]: v for k, v in codes.items()},
         "q_cur": q_cur,
